@@ -1,0 +1,34 @@
+// Copyright 2022 The Go Authors. All rights reserved.
+// Use of this source code is governed by a BSD-style
+// license that can be found in the LICENSE file.
+
+//go:build verif
+
+// Machine-checked contracts for the expression tokenizer (//@ lines, read by
+// /verif/gocv).  Compiled only under the "verif" tag; comment-only.
+
+package parse
+
+// A tokenizer always looks at a suffix of the original text, so every token
+// and error offset lies inside that text.
+//@ pure func suffixOf(q string, orig string) bool = len(q) <= len(orig) && q == orig[len(orig)-len(q):]
+//@ pure func tokOK(t tokenizer) bool = t.errt != nil && suffixOf(t.q, t.errt.qOrig)
+
+// qEnd: the index of the closing quote of the Go string literal that starts at
+// q[0] == '"' — the first '"' at or after pos that is not the character after a
+// backslash — or len(q) if there is none.
+//@ rec func qEnd(q string, pos int) int = (pos < 0 || pos >= len(q)) ? len(q) :
+//@     (q[pos] == '"' ? pos : (q[pos] == '\\' ? qEnd(q, pos+2) : qEnd(q, pos+1)))
+
+//@ func (t *tokenizer) quotedWord() (k tok, n tokenizer)
+//@   props C07
+//@   requires t != nil && tokOK(deref(t)) && len(t.q) > 0 && t.q[0] == '"'
+//@   modifies t.errt
+//@   ensures tokOK(n) && n.errt == t.errt && t.errt.qOrig == old(t.errt.qOrig) && 0 <= k.Off <= len(t.errt.qOrig)
+//@   ensures qEnd(t.q, 1) >= len(t.q) ==> k.Kind == 0 && t.errt.err != nil
+//@   ensures qEnd(t.q, 1) < len(t.q) && strconv.Unquote_1(t.q[:qEnd(t.q, 1)+1]) == nil ==>
+//@             k.Kind == 'q' && k.Tok == strconv.Unquote_0(t.q[:qEnd(t.q, 1)+1]) && n.q == t.q[qEnd(t.q, 1)+1:] && t.errt.err == old(t.errt.err)
+//@   ensures qEnd(t.q, 1) < len(t.q) && strconv.Unquote_1(t.q[:qEnd(t.q, 1)+1]) != nil ==> k.Kind == 0 && t.errt.err != nil
+//@   loop 1:
+//@     invariant 1 <= pos && qEnd(t.q, 1) == qEnd(t.q, pos) && unchanged()
+//@     decreases len(t.q) + 2 - pos
